@@ -25,6 +25,8 @@ const WRAPPERS: &[Wrapper] = &[Wrapper::Not, Wrapper::If, Wrapper::ElseIf, Wrapp
 enum Pred {
     Cap,
     UserFn,
+    /// a user function that ends without a value (bare return / running into its end) after a command with a truthy output
+    UserFnNoValue,
     Equals,
     Contains,
     StartsWith,
@@ -73,7 +75,7 @@ fn classify(stored: &[String], vals: &[String]) -> Option<&'static str> {
 fn pred_name(p: Pred, t: &mut Tape) -> &'static str {
     match p {
         Pred::Cap => t.pick(&["cap", "cap2", "hz_capture"]),
-        Pred::UserFn => "uf",
+        Pred::UserFn | Pred::UserFnNoValue => "uf",
         Pred::Equals => t.pick(&["equals", "eq"]),
         Pred::Contains => "contains",
         Pred::StartsWith => "starts_with",
@@ -84,8 +86,12 @@ fn pred_name(p: Pred, t: &mut Tape) -> &'static str {
 fn run_case(pred: Pred, wrapper: Wrapper, vals: Vec<String>, stored: Vec<String>, t: &mut Tape, st: &mut Stats) -> Verdict {
     let pname = pred_name(pred, t);
     let mut script = String::new();
+    let is_fn = matches!(pred, Pred::UserFn | Pred::UserFnNoValue);
     if pred == Pred::UserFn {
         script.push_str("fn uf\n    emit uf ${1} ${2} ${3} ${4} ${5} ${6}\n    ufr = tick ufk 1\n    return ${ufr}\nend\n");
+    }
+    if pred == Pred::UserFnNoValue {
+        script.push_str(if t.flip() { "fn uf\n    emit uf ${1} ${2} ${3} ${4} ${5} ${6}\n    ufr = tick ufk 1\n    return\nend\n" } else { "fn uf\n    emit uf ${1} ${2} ${3} ${4} ${5} ${6}\n    ufr = tick ufk 1\nend\n" });
     }
     let mut side = vec![];
     let mut refs = String::new();
@@ -102,7 +108,7 @@ fn run_case(pred: Pred, wrapper: Wrapper, vals: Vec<String>, stored: Vec<String>
     }
     // direct call (with the alias' stored arguments in front, which is what the alias stands for)
     script.push_str(&format!("d = {}{}{}\n", pname, stored_refs, refs));
-    if pred == Pred::UserFn {
+    if is_fn {
         // re-arm the tick automaton so that the wrapped call sees the same answer sequence start
         script.push_str("x = tick ufk 1\n");
     }
@@ -156,7 +162,7 @@ fn run_case(pred: Pred, wrapper: Wrapper, vals: Vec<String>, stored: Vec<String>
                 return failv("arguments-differ", json!({"direct": caps[0].args, "wrapped": caps[1].args}));
             }
         }
-        Pred::UserFn => {
+        Pred::UserFn | Pred::UserFnNoValue => {
             let ufs: Vec<&Event> = trace.iter().filter(|e| e.cmd == "emit" && e.args.first().map(|a| a == "uf").unwrap_or(false)).collect();
             if ufs.len() != 2 {
                 return failv("wrapped-command-not-invoked-once", json!({"invocations": ufs.len()}));
@@ -215,9 +221,9 @@ fn compose(t: &mut Tape) -> String {
 }
 
 fn case_random(t: &mut Tape, st: &mut Stats) -> Verdict {
-    let pred = *t.pick_ref(&[Pred::Cap, Pred::Cap, Pred::UserFn, Pred::Equals, Pred::Contains, Pred::StartsWith, Pred::IsEmpty]);
+    let pred = *t.pick_ref(&[Pred::Cap, Pred::Cap, Pred::UserFn, Pred::UserFnNoValue, Pred::Equals, Pred::Contains, Pred::StartsWith, Pred::IsEmpty]);
     let mut wrapper = *t.pick_ref(WRAPPERS);
-    if wrapper == Wrapper::Alias && pred == Pred::UserFn {
+    if wrapper == Wrapper::Alias && matches!(pred, Pred::UserFn | Pred::UserFnNoValue) {
         // known finding C09/alias-of-user-function (excluded by construction, re-confirmed by a probe)
         wrapper = Wrapper::Not;
         st.class("excluded-alias-of-user-function");
@@ -228,7 +234,7 @@ fn case_random(t: &mut Tape, st: &mut Stats) -> Verdict {
         _ => 1 + t.below(4),
     };
     let mut stored = vec![];
-    if wrapper == Wrapper::Alias && matches!(pred, Pred::Cap | Pred::UserFn) {
+    if wrapper == Wrapper::Alias && matches!(pred, Pred::Cap | Pred::UserFn | Pred::UserFnNoValue) {
         for _ in 0..t.below(3) {
             stored.push(compose(t));
         }
@@ -236,7 +242,7 @@ fn case_random(t: &mut Tape, st: &mut Stats) -> Verdict {
     let mut vals: Vec<String> = vec![];
     // library predicates get related values so that both outcomes occur
     for i in 0..n {
-        if i > 0 && !matches!(pred, Pred::Cap | Pred::UserFn) && t.flip() {
+        if i > 0 && !matches!(pred, Pred::Cap | Pred::UserFn | Pred::UserFnNoValue) && t.flip() {
             let base = vals[0].clone();
             let v = match t.below(3) {
                 0 => base,
@@ -472,7 +478,7 @@ fn probe_alias_of_function() -> Option<String> {
 pub fn property() -> Property {
     Property {
         id: "C09",
-        rule: "a predicate (harness capture command under three names, a user function, equals/contains/starts_with/is_empty) called directly and then wrapped in not / if / elseif / while / a script-level alias (0..2 stored arguments), with 1..4 argument values delivered through variables and composed from 64 feature fragments and hazard strings; the wrapped invocation must receive the same argument vector as the direct one and the branch / not output / alias result must be the one the direct output determines. (grid) every single feature x wrapper x argument position x {capture, user function} exhaustively. (sequences) 2..5 wrapped invocations in one run (each its own wrapper, capture or user function, with or without a preceding direct call) whose argument lists are equal to an earlier one, or the same text cut at other boundaries, or fresh: each must receive the list written for it and decide by its own answer. Values falling in a class listed in KNOWN_FINDINGS.txt are counted separately (excluded_known) and re-confirmed by probes; everything else is strict. Non-trivial: a value that is empty or has a non-alphanumeric character, outside the known classes; distinct by (wrapper, predicate, values)",
+        rule: "a predicate (harness capture command under three names, a user function returning a value, a user function ending without a value after a command with a truthy output, equals/contains/starts_with/is_empty) called directly and then wrapped in not / if / elseif / while / a script-level alias (0..2 stored arguments), with 1..4 argument values delivered through variables and composed from 64 feature fragments and hazard strings; the wrapped invocation must receive the same argument vector as the direct one and the branch / not output / alias result must be the one the direct output determines. (grid) every single feature x wrapper x argument position x {capture, user function} exhaustively. (sequences) 2..5 wrapped invocations in one run (each its own wrapper, capture or user function, with or without a preceding direct call) whose argument lists are equal to an earlier one, or the same text cut at other boundaries, or fresh: each must receive the list written for it and decide by its own answer. Values falling in a class listed in KNOWN_FINDINGS.txt are counted separately (excluded_known) and re-confirmed by probes; everything else is strict. Non-trivial: a value that is empty or has a non-alphanumeric character, outside the known classes; distinct by (wrapper, predicate, values)",
         assumptions: &[
             "the eval command itself is not a wrapper here (it is documented to expand what it is given)",
             "known classes are predicates on the final value: cr-or-lf, leading-quote, quote-with-space, hash-without-space, backslash-before-dollar-or-percent, expansion-opener, trailing-whitespace-in-last-argument, equals-leading-first-argument",
@@ -500,7 +506,7 @@ pub fn property() -> Property {
                     Tier::Thorough => Plan::Random { cases: 7_500_000, max_len: 160 },
                 },
                 case: case_random,
-                min_classes: &[("wrapper-Alias", 3000), ("wrapper-While", 3000), ("predicate-UserFn", 3000), ("predicate-Equals", 3000)],
+                min_classes: &[("wrapper-Alias", 3000), ("wrapper-While", 3000), ("predicate-UserFn", 3000), ("predicate-UserFnNoValue", 3000), ("predicate-Equals", 3000)],
             },
         ],
         probes: vec![
